@@ -283,21 +283,29 @@ class Index:
                     cur = [x.arg for x in a.args]
                     if want is None or len(want) != len(cur) or sorted(want) == sorted(cur) or a.vararg or a.kwarg or a.kwonlyargs or a.posonlyargs:
                         continue
-                    ren = {c: w for c, w in zip(cur, want) if c != w}
-                    # renamed and reordered at once: when the new names clearly resemble the reference names in another order, that order wins
-                    import difflib
                     cs, ws = [c for c in cur if c not in want], [w for w in want if w not in cur]
-                    if len(cs) == len(ws) and len(cs) > 1:
-                        pairs = sorted(((difflib.SequenceMatcher(None, c, w).ratio(), c, w) for c in cs for w in ws), reverse=True)
-                        match, used_w = {}, set()
-                        for r_, c, w in pairs:
-                            if c not in match and w not in used_w and r_ >= 0.6:
-                                match[c] = w
-                                used_w.add(w)
-                        if len(match) == len(cs) and any(ren.get(c) != w for c, w in match.items()):
-                            ren = match
-                    elif len(cs) != len(ws):
+                    if len(cs) != len(ws):
                         continue
+                    # which reference name does each new name stand for?  By position, unless the words of the new names say otherwise (renamed
+                    # and reordered at once): then by the words, and when the words do not decide it, the function is left as it is written
+                    import difflib
+
+                    def score(c, w):
+                        tc, tw = set(c.lower().split("_")) - {""}, set(w.lower().split("_")) - {""}
+                        return len(tc & tw) / max(1, len(tc | tw)) + 0.01 * difflib.SequenceMatcher(None, c, w).ratio()
+                    same_slot = {c: w for c, w in zip(cur, want) if c != w and c in cs and w in ws}
+                    by_position = len(same_slot) == len(cs) and all(score(c, same_slot[c]) + 1e-9 >= max(score(c, w) for w in ws) for c in cs)
+                    if by_position:
+                        ren = same_slot
+                    else:
+                        pairs = sorted(((score(c, w), c, w) for c in cs for w in ws), reverse=True)
+                        ren, used_w = {}, set()
+                        for sc_, c, w in pairs:
+                            if c not in ren and w not in used_w and sc_ >= 0.2:
+                                ren[c] = w
+                                used_w.add(w)
+                        if len(ren) != len(cs):
+                            continue
                     if set(ren.values()) & set(cur):
                         continue          # a reference name is in use for another parameter: renamed and reordered at once, not decidable here
                     used = {n.id for n in ast.walk(fn) if isinstance(n, ast.Name)}
